@@ -49,8 +49,14 @@ PROP = {'title': 'Grid positions, offsets and ranges form an exact row-major bij
                  "apply with differing sizes: 'an empty grid' is read as empty()/content()==0, the dimension of the empty result is not "
                  'asserted',
                  'the order in which constructors, map, fill and resize call the user function is not asserted, only the resulting '
-                 'cells and the number of calls',
+                 'cells',
                  'a pos_ref_range is read as a view of the grid OBJECT it was made from (pos_reference: a reference to a grid cell and its '
                  'position): after swap/assignment it must yield the current cells of that object; after a size-changing operation it is '
                  'only iterated again if it is empty or its stored (min, sup) lie inside the new size',
-                 'grids passed as rvalues may be left in any state and are not inspected; moved-from grids are not inspected']}
+                 'grids passed as rvalues may be left in any state and are not inspected; moved-from grids are not inspected',
+                 'information only, never a verdict (counters info:<sig> in the evidence): the number of invocations of the user function '
+                 '(object<N>:ctor_calls, resize<N>:init_calls, resize<N>:init_for_old_cell, map<N>:calls, fill<N>:calls, apply2<N>:calls, '
+                 'apply2<N>:calls_on_mismatch, apply2_cat/apply3_cat/map_cat/fill_cat ...:calls and ...:calls_on_mismatch) -- the '
+                 'documentation fixes the resulting cells, not how often or when the function is evaluated; and that range_dim of an '
+                 'empty range is the all-zero dimension (range_dim<S,N>:empty_range_not_null) -- the verdict only requires that it '
+                 'denotes zero cells']}
